@@ -55,7 +55,11 @@ partial def loop (tbl : Std.HashMap String Handler) (quiet : Bool) (hin hout : I
       let s := if v.pred then s else { s with predf := s.predf + 1 }
       let s := if v.wf then { s with wf := s.wf + 1 } else s
       let s := match v.kf with | some n => { s with kf := bumpKf s.kf n } | none => s
-      match v.pred, v.corr, v.kf with
+      -- The predicate is only binding where the property quantifies (`wf`, the hypothesis of the
+      -- theorem): outside it a false predicate claims nothing about the property, and only the
+      -- correspondence with the model applies.
+      let pred := v.pred || !v.wf
+      match pred, v.corr, v.kf with
       | false, true, some n =>
         -- fails exactly as the known finding records: count, show only the first two per finding
         let seen := match s.kfi.find? (fun (p : String × Nat) => p.1 == n) with | some p => p.2 | none => 0
